@@ -55,6 +55,13 @@ func (st *ProtoVoteStore) HasChanges() bool {
 // The votestore is updated, the next deltas will be 0 if ProcessAttestation is not changing any vote.
 func (st *ProtoVoteStore) ComputeDeltas(indices map[NodeRef]NodeIndex, oldBalances []Gwei, newBalances []Gwei) []SignedGwei {
 	deltas := make([]SignedGwei, len(indices), len(indices))
+	// Node indices count from the prune offset of the array (its lowest index in use), deltas from zero.
+	offset, first := NodeIndex(0), true
+	for _, index := range indices {
+		if first || index < offset {
+			offset, first = index, false
+		}
+	}
 	for i := 0; i < len(st.votes); i++ {
 		vote := &st.votes[i]
 		// There is no need to create a score change if the validator has never voted (may not be active)
@@ -77,10 +84,10 @@ func (st *ProtoVoteStore) ComputeDeltas(indices map[NodeRef]NodeIndex, oldBalanc
 			// Ignore the current or next vote if it is not known in `indices`.
 			// We assume that it is outside of our tree (i.e., pre-finalization) and therefore not interesting.
 			if currentIndex, ok := indices[vote.Current]; ok {
-				deltas[currentIndex] -= SignedGwei(oldBal)
+				deltas[currentIndex-offset] -= SignedGwei(oldBal)
 			}
 			if nextIndex, ok := indices[vote.Next]; ok {
-				deltas[nextIndex] += SignedGwei(newBal)
+				deltas[nextIndex-offset] += SignedGwei(newBal)
 				vote.Current = vote.Next
 				vote.CurrentTargetEpoch = vote.NextTargetEpoch
 			}
